@@ -80,6 +80,8 @@ def run(scenario):
         for p in peer.problems:
             if p['kind'] == 'cannot_open_protected_message':
                 return w.violation(PROP, 'traffic_not_under_rfc_keys', dict(p['sig'], peer='reference'), p['detail'])
+            if p['kind'] == 'ike_auth_to_spi_of_no_sa_response':
+                return w.violation(PROP, 'traffic_not_under_rfc_keys', {'peer': 'reference', 'why': 'spi_r'}, p['detail'])
             if p['kind'] in ('ke_wrong_length', 'ke_invalid'):
                 return w.violation(PROP, 'ke_not_fixed_width', {'peer': 'reference'}, p['detail'])
             foreign = {'auth_does_not_verify': 'C02', 'retransmission_differs': 'C13', 'request_id_outside_window': 'C08', 'initiator_flag_clear': 'C08',
